@@ -187,13 +187,13 @@ fn run_pipeline_inner(case: &PCase, mut pool: Option<&mut futures::executor::Loc
     L(rxrust::ops::box_it::BoxOp<'static, Val, E>),
     S(rxrust::ops::box_it::BoxOpThreads<Val, E>),
   }
+  let env_s = EnvS::new(hots_s.clone(), counters.clone());
+  let env_l = EnvL::new(hots_l.clone(), counters.clone());
   let built = catch_unwind(AssertUnwindSafe(|| {
     if case.threads_flavour {
-      let env = EnvS { hots: hots_s.clone(), counters: counters.clone() };
-      Pending::S(build_shared(&case.root, &env))
+      Pending::S(build_shared(&case.root, &env_s))
     } else {
-      let env = EnvL { hots: hots_l.clone(), counters: counters.clone() };
-      Pending::L(build_local(&case.root, &env))
+      Pending::L(build_local(&case.root, &env_l))
     }
   }));
   let mut pending = match built {
@@ -277,13 +277,10 @@ fn run_pipeline_inner(case: &PCase, mut pool: Option<&mut futures::executor::Loc
             run.post_terminal_inputs += 1;
           }
           let v = Val::I((i as i64 + 1) * 1000 + counts[i]);
-          match (ev, case.threads_flavour) {
-            (In::Next, false) => hots_l[i].clone().next(v),
-            (In::Next, true) => hots_s[i].clone().next(v),
-            (In::Err, false) => hots_l[i].clone().error(i as E + 1),
-            (In::Err, true) => hots_s[i].clone().error(i as E + 1),
-            (In::Complete, false) => hots_l[i].clone().complete(),
-            (In::Complete, true) => hots_s[i].clone().complete(),
+          if case.threads_flavour {
+            env_s.emit(i, ev, v, i as E + 1)
+          } else {
+            env_l.emit(i, ev, v, i as E + 1)
           }
           run.trace.push_str(&format!("h{}:{} ", i, match ev {
             In::Next => format!("N{}", (i as i64 + 1) * 1000 + counts[i]),
@@ -431,6 +428,8 @@ fn run_pipeline_inner(case: &PCase, mut pool: Option<&mut futures::executor::Loc
     drop(handle);
     drop(hots_l);
     drop(hots_s);
+    drop(env_l);
+    drop(env_s);
     drop(w);
   }));
   Ok(run)
